@@ -182,6 +182,7 @@ def finish(prop, ctx, insts, reports, wall, explanation, not_decided, extra=None
         "samples": samples + bad_samples,
         "rules": reports,
         "functions_analysed": ctx.stats.get("functions"),
+        "positive_controls": ctx.stats.get("positive_controls"),
         "tree_hash": ctx.tree_hash,
         "known_findings_matched": matched_known,
         "checker_cmd": "./check %s --tier %s" % (prop, ctx.tier),
